@@ -312,6 +312,26 @@ func init() {
 			for i := 0; i < 12; i++ {
 				cs = append(cs, vmCases(eng, envFamily, vals, wideProgram(r, i), "prog:wide")...)
 			}
+			// constant-index sweep: every kind of instruction operand at many pool indices (incl. >255)
+			tails := []string{"!b1", "o.a", "tr(n1)", "n1", "\"s\"", "if(b1, 1, 2)", "lz(1, 2)", "xs[0]", "{p: 1}.p", "b1 && !b1", "get(mb, 1)"}
+			for _, k := range []int{0, 3, 9, 17, 19, 20, 21, 23, 26, 29, 31, 32, 33, 47, 63, 64, 100, 127, 128, 200, 253, 254, 255, 256, 257, 275, 280, 290, 300} {
+				var b strings.Builder
+				b.WriteString("[")
+				for i := 0; i < k; i++ {
+					b.WriteString("true, ")
+				}
+				boolTails := []string{"!b1", "b1 && !b1", "(n1 == 1)", "!(n1 == n2)", "!(s1 != \"a\")"}
+				b.WriteString(boolTails[k%len(boolTails)])
+				b.WriteString("]")
+				cs = append(cs, vmCases(eng, envFamily, vals, b.String(), "prog:const-sweep")...)
+				var c strings.Builder
+				c.WriteString("len([")
+				for i := 0; i < k; i++ {
+					c.WriteString("1, ")
+				}
+				c.WriteString("2]) + string(" + tails[k%len(tails)] + ").len()")
+				cs = append(cs, vmCases(eng, envFamily, vals, c.String(), "prog:const-sweep")...)
+			}
 			if thorough {
 				for k := 0; k < 3; k++ {
 					cs = append(cs, vmCases(eng, envFamily, vals, hugeProgram(k), "prog:huge")...)
